@@ -23,6 +23,7 @@ META = {
 }
 META['bounds'].append('portions of concrete allocations (2 amounts x 3 ratio lists x 4 receivers; enumeration) compared with symbolic quantities in 3 other units')
 META['bounds'].append('three unit pairs with non-decimal ratio (h/min, yd/ft, lb/kg) under the faithful model of result kinds (option repr_fork)')
+META['bounds'].append('comparisons of 5 Mass unit pairs while a table / function converter is registered on Mass, and after its removal')
 
 OPS = [('lt', operator.lt), ('le', operator.le), ('eq', operator.eq),
        ('ne', operator.ne), ('ge', operator.ge), ('gt', operator.gt)]
